@@ -466,7 +466,13 @@ pub fn run_w(line: &str) -> Result<String, String> {
 	// user metadata as a map with deterministic order
 	let meta_map: std::collections::BTreeMap<String, serde_bytes::ByteBuf> =
 		meta.iter().map(|(k, v)| (k.clone(), serde_bytes::ByteBuf::from(v.clone()))).collect();
-	let built = WriterBuilder::new(&mut config)
+	// the builder borrows the caller's configuration, or owns one (odd case lines)
+	let builder = if line.len() % 2 == 1 {
+		WriterBuilder::with_owned_config(serde_avro_fast::ser::SerializerConfig::new(&schema))
+	} else {
+		WriterBuilder::new(&mut config)
+	};
+	let built = builder
 		.compression(compression(&codec, None))
 		.approx_block_size(approx as u32)
 		.sync_marker(sync_arr)
@@ -623,7 +629,7 @@ pub fn crate_file(
 	sync: &[u8],
 ) -> Option<Vec<u8>> {
 	let approx = *[0u32, 7, 30, 65536].choose(rng).unwrap();
-	let level = if rng.gen_bool(0.5) { None } else { Some(*[1u8, 3, 9].choose(rng).unwrap()) };
+	let level = if rng.gen_bool(0.5) { None } else { Some(*[1u8, 3, 9, 10, 22, 200, 255].choose(rng).unwrap()) };
 	let mut config = serde_avro_fast::ser::SerializerConfig::new(schema);
 	let mut w = WriterBuilder::new(&mut config)
 		.compression(compression(codec, level))
@@ -843,6 +849,15 @@ pub fn generate_r(stream: &str, seed: u64, n: usize, emit: &mut dyn FnMut(String
 						_ => f[at] = 0x7f,
 					}
 					v.push(("flip".to_string(), f));
+					// the object count one less / one more than the block holds (still a well-formed
+					// varint): data left in the block after the declared objects, resp. an object
+					// missing - with every codec
+					let c = file[count_off];
+					if c & 0x80 == 0 && c >= 4 && c & 1 == 0 && c < 0x7e {
+						let mut f = file.clone();
+						f[count_off] = if rng.gen_bool(0.7) { c - 2 } else { c + 2 };
+						v.push(("flip".to_string(), f));
+					}
 					let mut cuts = vec![count_off, size_off, data_off, data_end, data_end + 1, data_end + 15];
 					for o in size_off + 1..data_off {
 						cuts.push(o);
@@ -899,13 +914,40 @@ pub fn generate_r(stream: &str, seed: u64, n: usize, emit: &mut dyn FnMut(String
 	}
 }
 
-fn read_all<'de, R>(mut reader: serde_avro_fast::object_container_file_encoding::Reader<R>, hint: &Hint) -> Vec<String>
+fn read_all<'de, R>(mut reader: serde_avro_fast::object_container_file_encoding::Reader<R>, hint: &Hint, file_len: usize) -> Vec<String>
 where
 	R: serde_avro_fast::de::read::ReadSlice<'de> + serde_avro_fast::de::read::take::Take + std::io::BufRead,
 	<R as serde_avro_fast::de::read::take::Take>::Take: serde_avro_fast::de::read::ReadSlice<'de> + std::io::BufRead,
 {
 	let mut outs = vec![];
 	let mut eofs = 0;
+	// the iterator entry point (`Reader::deserialize`) instead of `deserialize_seed_next`, for
+	// files of an even length read without a shape hint: it must yield the same sequence
+	if *hint == Hint::Any && file_len % 2 == 0 {
+		let mut it = reader.deserialize::<crate::streams::ser::AnyOut>();
+		for _ in 0..400 {
+			match it.next() {
+				None => {
+					outs.push("eof".to_string());
+					eofs += 1;
+					if eofs >= 2 {
+						break;
+					}
+				}
+				Some(Ok(o)) => {
+					eofs = 0;
+					let mut w = W::default();
+					w.t("v").out(&o.0);
+					outs.push(w.s);
+				}
+				Some(Err(e)) => {
+					eofs = 0;
+					outs.push(if e.io_error().is_some() { "e io".into() } else { "e custom".into() });
+				}
+			}
+		}
+		return outs;
+	}
 	for _ in 0..400 {
 		match reader.deserialize_seed_next(crate::hintde::HS(hint)) {
 			Ok(None) => {
@@ -940,7 +982,7 @@ pub fn run_backend_on_file(b: &Backend, file: &[u8], hint: &Hint) -> String {
 	match b.clone() {
 		Backend::Slice => match Reader::from_slice(file) {
 			Err(e) => init_err(e),
-			Ok(r) => read_all(r, hint).join(" "),
+			Ok(r) => read_all(r, hint, file.len()).join(" "),
 		},
 		Backend::Reader { last, sched, max_alloc } => {
 			let cr = ChunkReader { data: file.to_vec(), pos: 0, avail: 0, sched: sched.into_iter().collect(), last };
@@ -950,12 +992,12 @@ pub fn run_backend_on_file(b: &Backend, file: &[u8], hint: &Hint) -> String {
 				rr.max_alloc_size = max_alloc;
 				return match Reader::new(rr) {
 					Err(e) => init_err(e),
-					Ok(r) => read_all(r, hint).join(" "),
+					Ok(r) => read_all(r, hint, file.len()).join(" "),
 				};
 			}
 			match Reader::from_reader(cr) {
 				Err(e) => init_err(e),
-				Ok(r) => read_all(r, hint).join(" "),
+				Ok(r) => read_all(r, hint, file.len()).join(" "),
 			}
 		}
 	}
